@@ -31,7 +31,8 @@ Sets == {q \in SeqsOf(MaxSet) : Len(q) >= 1 /\ \A i, j \in 1..Len(q) : i # j => 
 \* "7797compact"/"7797json": the RFC 7797 entry points with "b64": false (their own serialize/deserialize code)
 Sers == {"compact", "flattened", "general"} \cup (IF Side = "jws" THEN {"7797compact", "7797json"} ELSE {})
 IsCompact(ser) == ser \in {"compact", "7797compact"}
-\* kid selector: "absent", "unknown", or the index of a key of the set
+\* kid selector: "absent", "unknown" (a string that is no key's kid - concretised as an arbitrary string and as the thumbprint of
+\* a key that is registered under another, explicit kid), or the index of a key of the set
 KidSels(q) == {"absent", "unknown"} \cup {ToString(i) : i \in 1..Len(q)}
 IdxOf(sel) == CHOOSE i \in 1..3 : ToString(i) = sel
 Suited(q, a) == {i \in 1..Len(q) : KtyOf(q[i]) \in KtysFor(a)}
